@@ -60,3 +60,81 @@ def summarize(x):
 
 def samples_of(cases, n=3):
     return [{'query': c.query, 'input_lines': c.lines[:6] + (['...'] if len(c.lines) > 6 else [])} for c in cases[:n]]
+
+
+def known_findings_for(pid):
+    return [f for f in aglib.load_known() if pid in f.get('properties', []) and f.get('status') == 'known']
+
+
+def replay_known(pid):
+    """-> (lines to print as KNOWN-FINDING, set of class names still present)"""
+    lines = []
+    classes = set()
+    for f in known_findings_for(pid):
+        w = f['witness']
+        o = aglib.run_impl_one(w['query'], ''.join(w['input']).encode('utf8'), w.get('mode', 'json'))
+        out = o['out'].decode('utf8', 'replace').strip()
+        still = True
+        if w.get('correct_output') is not None:
+            still = (out != w['correct_output'])
+        elif f['class'] == 'dup_agg_column_name':
+            still = out.count('"_sum"') >= 2 or o['rc'] == 0 and '"_sum"' in out and '11' not in out
+        if still:
+            classes.add(f['class'])
+            lines.append('%s %s [witness: %s on %r -> %s]' % (f['id'], f['what'], w['query'], ''.join(w['input'])[:80], out[:80]))
+    return lines, classes
+
+
+def check_pct_cell(cell, ph):
+    """the implementation's percentile cell vs what the model says reached the sketch"""
+    if any(x is None for x in ph['__pct_vals']):
+        return None        # non-finite values reached the sketch: its answer is not constrained here
+    vals = sorted(qast.bits2f(x.bits) if isinstance(x, aglib.F) else float(x) for x in ph['__pct_vals'])
+    q = ph['__pct_q']
+    q = qast.bits2f(q.bits) if isinstance(q, aglib.F) else float(q)
+    if cell is None:
+        return 'percentile of a non-empty group is None'
+    c = qast.bits2f(cell.bits) if isinstance(cell, aglib.F) else float(cell)
+    idx = [i for i, v in enumerate(vals) if v == c or (v != v and c != c)]
+    if not idx:
+        return 'percentile %r is not one of the observed values' % c
+    n = len(vals)
+    target = q * n
+    tol = 0.001 * n + 1.0
+    if min(abs(i + 1 - target) for i in idx) > tol + 1 and min(abs(i - target) for i in idx) > tol + 1:
+        return 'percentile %r has rank %r, target %.2f of %d' % (c, idx, target, n)
+    return None
+
+
+def compare_with_pct(case, impl, model):
+    """like the default comparison, but percentile cells are checked against the model's placeholder"""
+    if model['kind'] != 'table' or impl['kind'] != 'table':
+        return compare_default(case, impl, model)
+    has_ph = any(isinstance(v, dict) and '__pct_q' in v for row in model['rows'] for v in row.values())
+    if not has_ph:
+        return compare_default(case, impl, model)
+    if len(impl['rows']) != len(model['rows']):
+        return 'row count: implementation %d, model %d' % (len(impl['rows']), len(model['rows']))
+    # rows are matched by their non-percentile cells (the order may depend on the sketch's answer)
+    def strip(row, phcols):
+        return aglib.canon_key({k: v for k, v in row.items() if k not in phcols})
+    phcols = {k for row in model['rows'] for k, v in row.items() if isinstance(v, dict) and '__pct_q' in v}
+    mm = {}
+    for row in model['rows']:
+        mm.setdefault(strip({c: row.get(c) for c in model['cols']}, phcols), []).append(row)
+    for row in impl['rows']:
+        cand = mm.get(strip(row, phcols))
+        if not cand:
+            return 'row %r has no counterpart in the model' % (row,)
+        mrow = cand.pop()
+        for c in phcols:
+            ph = mrow.get(c)
+            if isinstance(ph, dict):
+                why = check_pct_cell(row.get(c), ph)
+                if why:
+                    return why
+            elif not aglib.same(row.get(c), ph):
+                return 'cell %s: implementation %r, model %r' % (c, row.get(c), ph)
+    return None
+
+
